@@ -119,9 +119,12 @@ abbrev ClefV := Int × Int × Int × Int
 abbrev RawClef := Int × Int × String × Int × Option Int
 
 /-- the rows of `clefs`; `none` = `KeyError` of `clef_sign_to_int` -/
-def clefRows (clefs : List RawClef) : Option (Tbl ClefV) :=
-  clefs.mapM fun (t, st, sign, line, oc) =>
-    (clefSignToInt sign).map fun code => (t, (st, code, line, match oc with | some o => o | none => 0))
+def clefRows : List RawClef → Option (Tbl ClefV)
+  | [] => some []
+  | (t, st, sign, line, oc) :: rest =>
+    match clefSignToInt sign, clefRows rest with
+    | some code, some rs => some ((t, (st, code, line, match oc with | some o => o | none => 0)) :: rs)
+    | _, _ => none
 
 /-- `compute_number_of_staves`: the largest staff number of any note, clef, direction or words; at least 1 -/
 def numberOfStaves (staffs : List Int) : Nat :=
@@ -176,17 +179,23 @@ def fillNumbers (nums : List (Option Int)) : List (Option Int) :=
     | some (some k) => some k
     | _ => (pyIndex nums ((i : Int) - 1)).join
 
+/-- all entries present, or `none` -/
+def allSome {α : Type} : List (Option α) → Option (List α)
+  | [] => some []
+  | some a :: rest => (allSome rest).map (a :: ·)
+  | none :: _ => none
+
 /-- rows `(start, number)` of `measure_number_map`; `none` = a `None` number is left
     (object array: scipy raises `TypeError`) -/
 def measureNumberTable (span : Span) (ms : List (Int × Int × Option Int)) (beats0 d : Option Rat) :
     Option (Tbl Int) :=
   match ms with
   | [] => let (t0, _) := spanOrZero span; some [(t0, 1)]
-  | (s, e, _) :: _ =>
-    match (fillNumbers (ms.map (·.2.2))).mapM id with
+  | (s, e, _) :: rest =>
+    match allSome (fillNumbers (ms.map (·.2.2))) with
     | none => none
     | some nums =>
-      let starts := pickupStart s e beats0 d :: (ms.drop 1).map (·.1)
+      let starts := pickupStart s e beats0 d :: rest.map (·.1)
       some (starts.zip nums)
 
 def measureNumberMap (span : Span) (tss : List (Int × Nat × Nat)) (ms : List (Int × Int × Option Int))
@@ -202,27 +211,35 @@ def diffs : List Int → List Int
 
 /-- `[measure_map(m.start.t) for m in measures]`; `none` when a lookup is NaN
     (cannot happen for measures in time order) -/
-def barLookups (tbl : Tbl (Int × Int)) (ms : List (Int × Int)) : Option (List (Int × Int)) :=
-  ms.mapM fun (s, _) => interpPrev tbl s
+def barLookups (tbl : Tbl (Int × Int)) : List (Int × Int) → Option (List (Int × Int))
+  | [] => some []
+  | (s, _) :: rest =>
+    match interpPrev tbl s, barLookups tbl rest with
+    | some r, some rs => some (r :: rs)
+    | _, _ => none
 
-/-- `metrical_position_map` given the rows of `measure_map`:
+/-- `metrical_position_map` given `look = [measure_map(m.start.t) for m in measures]`:
+    no measures: the zero interpolator; otherwise
     position = `PPoly([[1…],[0…]], barlines)(x)` = x − (start of the interval holding x; first/last
-    interval outside), length = previous-interpolation of `np.diff(barlines)` (NaN = `none` below). -/
-def metricalFromTable (tbl : Tbl (Int × Int)) (ms : List (Int × Int)) (x : Int) :
-    Option (Int × Option Int) :=
-  match barLookups tbl ms with
-  | none => none
-  | some [] => some (0, some 0)
-  | some (l :: ls) =>
-    let look := l :: ls
+    interval outside), length = previous-interpolation of `np.diff(barlines)` (NaN = `none` below),
+    with `barlines = starts + [end of the last measure]`. -/
+def metricalOfBars (look : List (Int × Int)) (x : Int) : Option (Int × Option Int) :=
+  match look.getLast? with
+  | none => some (0, some 0)
+  | some last =>
     let starts := look.map (·.1)
-    let lastEnd := (look.getLast (by simp [look])).2
-    let barlines := starts ++ [lastEnd]
+    let barlines := starts ++ [last.2]
     let durTbl : Tbl Int := starts.zip (diffs barlines)
     let startTbl : Tbl Int := starts.map fun s => (s, s)
     match lookupPrev startTbl x with
     | some b => some (x - b, interpPrev durTbl x)
     | none => none
+
+def metricalFromTable (tbl : Tbl (Int × Int)) (ms : List (Int × Int)) (x : Int) :
+    Option (Int × Option Int) :=
+  match barLookups tbl ms with
+  | none => none
+  | some look => metricalOfBars look x
 
 def metricalMap (span : Span) (tss : List (Int × Nat × Nat)) (ms : List (Int × Int)) (d : Option Rat)
     (x : Int) : Option (Int × Option Int) :=
